@@ -13,7 +13,7 @@
 EXTENDS Props
 
 IndentOfK(o, k) == IF k = 1 THEN o.ii ELSE o.si
-CustomSplitter(o) == o.splitter \in {"every2", "every3"}
+CustomSplitter(o) == o.splitter \in {"every2", "every3", "half"}
 
 (* ---------- the cursor walk of C01 ---------- *)
 \* a character not covered by a slice must be an ASCII space or part of a line-ending sequence
@@ -37,7 +37,7 @@ TryStarts(cx, k, cands, i, r, hy, acc) ==
   IF i > Len(cands) THEN WalkFail
   ELSE LET p == cands[i]
            \* a slice may end in a space only at the positions cx.spaceok allows (the space-at-end clause of C01)
-           endok == Len(r) = 0 \/ r[Len(r)] # SP \/ (p + Len(r)) \in cx.spaceok
+           endok == Len(r) = 0 \/ r[Len(r)] # SP \/ (p + Len(r)) \in cx.spaceok \/ (hy /\ cx.hyspace)
            res == IF endok THEN Walk(cx, k + 1, p + Len(r), Append(acc, <<p, p + Len(r), hy>>)) ELSE WalkFail
        IN IF res.ok THEN res ELSE TryStarts(cx, k, cands, i + 1, r, hy, acc)
 Walk(cx, k, cur, acc) ==
@@ -96,19 +96,25 @@ SpaceException(e, prs, q) ==
 
 \* positions q (exclusive slice ends) at which a slice may end in a space
 SpaceOkSet(e) == LET prs == ParaRanges(e) IN {q \in 2..(Len(e.text) + 1) : e.text[q - 1] = SP /\ SpaceException(e, prs, q)}
-TextWalk(e) ==
+\* hs: also accept a space-terminated slice when a hyphen was inserted after it (only used to *classify* a failure:
+\* known finding K5, a custom split point 0 yields an empty piece whose hyphen lands behind the previous word's spaces)
+TextWalkX(e, hs) ==
   Walk([t |-> e.text, mask |-> SkipMask(e.text, e.o.crlf), lines |-> e.lines,
         inds |-> [k \in 1..Len(e.lines) |-> IndentOfK(e.o, k)], hyins |-> CustomSplitter(e.o), strict |-> TRUE,
-        spaceok |-> SpaceOkSet(e)], 1, 1, <<>>)
+        spaceok |-> SpaceOkSet(e), hyspace |-> hs], 1, 1, <<>>)
+TextWalk(e) == TextWalkX(e, FALSE)
 
-C01ok(e, wk) ==
+C01okX(e, wk, hs) ==
   /\ wk.ok
   /\ \A k \in 1..Len(e.lines) :
        (Len(IndentOfK(e.o, k)) = 0 /\ ~wk.sl[k][3] /\ Len(e.lines[k].s) > 0) => e.lines[k].bp >= 1      \* borrowed from the caller's buffer
   /\ LET prs == ParaRanges(e) IN
      \A k \in 1..Len(e.lines) :
        LET p == wk.sl[k][1] q == wk.sl[k][2] IN
-       (q > p /\ e.text[q - 1] = SP) => SpaceException(e, prs, q)
+       (q > p /\ e.text[q - 1] = SP) => (SpaceException(e, prs, q) \/ (hs /\ wk.sl[k][3]))
+C01ok(e, wk) == C01okX(e, wk, FALSE)
+\* the failure is explained completely by hyphens inserted behind the spaces of the preceding word (splitter "half" only)
+C01K5(e) == e.o.splitter = "half" /\ C01okX(e, TextWalkX(e, TRUE), TRUE)
 
 (* ---------- C02 ---------- *)
 RECURSIVE NonZeroVisAcc(_, _, _, _)
@@ -192,6 +198,22 @@ ParaOptimal(e, P, opps, first, n) ==
   IN IF ~(CostExact(Frags(f1), lws, e.o.pen) /\ PenaltyOk(Frags(f0))) THEN TRUE
      ELSE good(f0) \/ good(f1)
 
+\* conformance (drift) counterpart: the fragment list of the operational model, i.e. with the zero-width sentinel exactly
+\* where the code inserts it (break_words and a non-empty initial indent).  The verdict above accepts an optimum over the
+\* paragraph's own fragments as well (the statement of C03 does not speak of the sentinel); a change of the sentinel rule
+\* shows up here.
+ParaOptimalModel(e, P, opps, first, n) ==
+  LET rs == ParaRemainders(e, first, n)
+      f0 == IntendedFrags(P, e.o, opps)
+      fm == IF e.o.bw /\ Len(e.o.ii) # 0 THEN <<Sentinel>> \o f0 ELSE f0
+      lws == ActualWidths(e.o, first)
+      fr == Frags(fm)
+  IN IF ~(CostExact(Frags(<<Sentinel>> \o f0), lws, e.o.pen) /\ PenaltyOk(Frags(f0))) \/ ByteLen(P) < e.o.width THEN TRUE
+     ELSE \E arr \in ArrangementsOf(P, fm, rs) : Len(fm) = 0 \/ CostOfArr(fr, lws, e.o.pen, arr) = MinCostDP(fr, lws, e.o.pen)
+C03model(e) ==
+  LET prs == ParaRanges(e) starts == PrefixSumsAcc(e.pl, 1, <<0>>) IN
+  \A j \in 1..Len(prs) : ParaOptimalModel(e, ParaText(e, prs, j), ParaOpps(e, j), starts[j] + 1, e.pl[j])
+
 C03text(e) ==
   LET prs == ParaRanges(e) starts == PrefixSumsAcc(e.pl, 1, <<0>>) IN
   \A j \in 1..Len(prs) : ParaOptimal(e, ParaText(e, prs, j), ParaOpps(e, j), starts[j] + 1, e.pl[j])
@@ -235,7 +257,9 @@ Judge_wrap(e) ==
    ELSE
   << Chk("TOOL", "TOOL", "paragraph oracle data inconsistent with the specification's split / strip", OracleConsistent(e)) >> \o
   On("C08", << Chk("C08", "VERDICT", "a line does not start with the configured indent", C08ok(e)) >>) \o
-  On("C01", << Chk("C01", "VERDICT", "lines are not indent + in-order slices of the input (or a needlessly owned / space-terminated slice)", C01ok(e, wk)) >>) \o
+  On("C01", IF C01ok(e, wk) \/ ~C01K5(e)
+            THEN << Chk("C01", "VERDICT", "lines are not indent + in-order slices of the input (or a needlessly owned / space-terminated slice)", C01ok(e, wk)) >>
+            ELSE << Chk("C01", "VERDICT", "a slice ends in a space (custom split point 0: the hyphen of an empty first piece is inserted behind the previous word's spaces)", FALSE) >>) \o
   On("C02", IF e.o.alg = "ff" /\ TextWellFormed(e) /\ ~CustomSplitter(e.o)
             THEN << Chk("C02", "VERDICT", "a first-fit line is wider than the width although it is not a single unbreakable fragment", C02ok(e, wk, FALSE)),
                     Chk("C02", "VERDICT", "a first-fit line is wider than the width although it is not a single unbreakable fragment (indent alone wider than the width, zero-width fragments after it)", C02ok(e, wk, TRUE)) >>
@@ -253,6 +277,8 @@ Judge_wrap(e) ==
             ELSE <<>>) \o
   (IF e.o.alg = "ff"
    THEN << Chk(e.tag, "DRIFT", "wrap (first-fit) differs from the operational model", LineStringsOf(e) = LineStrings(WrapFF(e.text, e.o, WrapOppss(e)))) >>
+   ELSE IF usable /\ ~CustomSplitter(e.o) /\ "C03" \in Sel
+   THEN << Chk("C03", "DRIFT", "wrap (optimal-fit) is not a minimum-cost arrangement of the operational model's fragment list (sentinel where the code inserts it)", C03model(e)) >>
    ELSE <<>>))
 
 Judge_fill(e) ==
